@@ -13,7 +13,9 @@ Clause -> case family
   sub-indices ('sub'/'Sub', hex digits)      records/arrays in hyp; enum/subindex (every sub 0..0xFE,
                                              both words, both digit cases)
   data type, access type (mixed case)        enum/types (23 types x 6 access types x 4 case forms), hyp
-  PDO-mappability                            hyp, enum/types (absent / 0 / 1)
+  PDO-mappability                            hyp, enum/types (absent / 0 / 1), enum/flags (0/1 in 5 number
+                                             spellings on VAR, member, compact element), enum/compact
+                                             (every element 1..N, also without a name list)
   default and parameter values               enum/ints+limits (every boundary value of every integer type in
                                              every spelling: decimal, 0x, 0X, digit case, zero padded), hyp
                                              (REAL, strings, OCTET_STRING/DOMAIN hex, DCF ParameterValue)
@@ -27,7 +29,10 @@ Clause -> case family
   bit rate, node id, device info, comments   hyp (DeviceComissioning, DeviceInfo typed per CiA 306,
                                              BaudRate_x flags, Comments incl. empty lines)
   lookup by index / name / 'Parent.Child'    every case: od[i] is od[name]; od[i][s] is od[i][child] is
-                                             od[name][child] is od['Parent.Child']; names with '.'
+                                             od[name][child] is od['Parent.Child']; names with '.';
+                                             enum/names + hyp: keys differing in letter case / one character
+  index (no restriction in the quantifier)   0x1000..0x9FFF everywhere; enum/index + hyp: 0xA000..0xFFFF
+  comments                                   hyp 0..4 lines; enum/comments + hyp: 5..40, 99..101 lines
   format dispatch by suffix                  hyp: .eds/.EDS/.Eds/.dcf/.DCF/.Dcf; path, StringIO with
                                              .name, open file; LF and CRLF
 """
@@ -54,8 +59,17 @@ RULE = ("case = (abstract dictionary model, node-id argument, source kind, file 
         "ObjectType absent, key order, blank and comment lines, inline ';' comments, two's-complement or "
         "negative-decimal limits) derive from drawn seeds. Enumerated families cover every boundary "
         "value x spelling of every integer type (defaults and limits), node ids 1..127 x 5 $NODEID forms, "
-        "compact sizes, every sub-index 0..0xFE, every type x access type. Oracle: every attribute named "
-        "by the property compared with the model; all lookup routes must reach the identical object. "
+        "compact sizes (PDOMapping absent/0/1, with and without name list), every sub-index 0..0xFE, every "
+        "type x access type x 8 DataType spellings (0x/0X, padded, decimal). Widenings: 0/1 keys (PDOMapping, "
+        "BaudRate_x, DeviceInfo booleans) in 5 number spellings (0x1 is what canopen's exporter writes), "
+        "comment blocks of 0..40 and 99..101 lines with distinct lines, indices 0xA000..0xFFFF (hex letters "
+        "in every section header form) for every kind, names that differ from another key of the same table "
+        "in letter case only or in one character (dictionary, record, array, compact name list, "
+        "'Parent.Child'); enumerated (enum/flags, enum/comments, enum/index, enum/names) and drawn on top "
+        "of the random models. Oracle: every attribute named "
+        "by the property compared with the model (PDO-mappability also on the elements a compact array "
+        "without name list produces on demand); all lookup routes must reach the identical object; "
+        "iteration must yield exactly the described indices / sub-indices (order not demanded). "
         "Non-trivial = text with a signed limit, an odd-width type, a relative value, a compact array or a "
         "record; distinct = canonical JSON of the case.")
 ASSUMPTIONS = [
@@ -66,7 +80,11 @@ ASSUMPTIONS = [
     "and the one of the EDS editors we know); named compact arrays have 1..20 elements",
     "name of elements of a compact array without name list is not checked (CiA 306 and canopen differ; the "
     "repository's own test pins canopen's form); sub 0 of a compact array is only required to be UNSIGNED8",
-    "explicit node id and no [DeviceComissioning] section: od.node_id may be the argument or None",
+    "explicit node id and no [DeviceComissioning] section: od.node_id may be the argument or None; explicit "
+    "node id and a different NodeID in the file: od.node_id may be either (relative values use the argument)",
+    "objects are described at 0x1000..0xFFFF (below 0x1000 lie the data type definitions, not generated)",
+    "0/1 keys are spelled 0, 1, 0x0, 0x1, 0X1, 0x01, 0x0001 (no leading-zero decimals); [DummyUsage] keeps "
+    "plain 0/1 (the property does not name it)",
     "'Parent.Child' is not tried when the parent's own name contains '.' (inherently ambiguous)",
     "REAL defaults are the Python float of the decimal text (no rounding to binary32 demanded)",
     "StorageLocation / Factor / Unit / Description are compared too (read verbatim by the importer)",
@@ -76,6 +94,7 @@ BUDGET = {"quick": 150, "thorough": 240}
 _FEATURES_NT = ("slimit", "odd", "rel", "compact", "record")
 _feature_counts = Counter()
 _scratch = None
+_BOOL = st.booleans()
 
 DEVINFO_ATTR = {
     "VendorName": "vendor_name", "VendorNumber": "vendor_number", "ProductName": "product_name",
@@ -137,10 +156,11 @@ class _Cmp:
             self.bad("data_type", f"{where}: data_type {got.data_type!r} want {dt:#x}")
         if got.access_type != v["access"]:
             self.bad("access_type", f"{where}: access_type {got.access_type!r} want {v['access']!r}")
-        if not synthesized:
-            want_pdo = bool(v["pdo"])
-            if got.pdo_mappable != want_pdo or not isinstance(got.pdo_mappable, (bool, int)):
-                self.bad("pdo_mappable", f"{where}: pdo_mappable {got.pdo_mappable!r} want {want_pdo}")
+        # PDO-mappability is named by the property and "compact sub-object arrays [are] expanded": every
+        # element 1..N carries it, also the ones the array produces on demand (no name list)
+        want_pdo = bool(v["pdo"])
+        if got.pdo_mappable != want_pdo or not isinstance(got.pdo_mappable, (bool, int)):
+            self.bad("pdo_mappable", f"{where}: pdo_mappable {got.pdo_mappable!r} want {want_pdo}")
         # default
         spec = v["default"]
         if spec is not None and spec["k"] == "empty":
@@ -219,7 +239,7 @@ class _Cmp:
             return self.compact(od, got, o, where)
         # record / explicit array
         subs = [m["sub"] for m in o["members"]]
-        if set(got.subindices) != set(subs) or list(got) != sorted(subs) or len(got) != len(subs):
+        if set(got.subindices) != set(subs) or sorted(got) != sorted(subs) or len(got) != len(subs):
             return self.bad("subindices", f"{where}: sub-indices {sorted(got.subindices)} want {sorted(subs)}")
         if set(got.names) != {m["name"] for m in o["members"]}:
             return self.bad("member-names", f"{where}: member names {sorted(got.names)} "
@@ -261,7 +281,7 @@ class _Cmp:
         named = o["names"] is not None
         if named:
             want = set(range(0, n + 1))
-            if set(got.subindices) != want or list(got) != sorted(want):
+            if set(got.subindices) != want or sorted(got) != sorted(want):
                 return self.bad("compact/subindices", f"{where}: sub-indices {sorted(got.subindices)} "
                                                       f"want 0..{n} (name list with {n} entries)")
         elif not set(got.subindices) <= set(range(0, n + 1)):
@@ -289,7 +309,7 @@ class _Cmp:
         m = self.model
         want = {o["index"] for o in m["objects"]} | set(m["dummies"] or [])
         got = set(od.indices)
-        if got != want or list(od) != sorted(want) or len(od) != len(want):
+        if got != want or sorted(od) != sorted(want) or len(od) != len(want):
             extra = sorted(f"{i:#x}" for i in got - want)
             missing = sorted(f"{i:#x}" for i in want - got)
             return self.bad("objects/set", f"objects differ: unexpected {extra}, missing {missing}")
@@ -308,6 +328,11 @@ class _Cmp:
         if com is not None:
             want_node = self.node_arg if self.node_arg is not None else com["node_id"]
             ok = od.node_id == want_node
+            if not ok and self.node_arg is not None and com["node_id"] is not None:
+                # "node id ... taken from the file" vs. "the node id in force": when the caller's argument
+                # and the file's NodeID disagree the statement does not say which of the two od.node_id
+                # reports (relative values are still resolved against the argument) -> both accepted
+                ok = od.node_id == com["node_id"]
             want_rate = None if com["baudrate"] is None else com["baudrate"] * 1000
         else:
             ok = od.node_id is None or (self.node_arg is not None and od.node_id == self.node_arg)
@@ -441,7 +466,11 @@ def enum_cases(tier):
         for acc in em.ACCESS:
             for form in (acc, acc.upper(), acc.capitalize(), acc[:1] + acc[1:].upper()):
                 n += 1
-                v = _var(dt, access=acc, pdo=[None, 0, 1][n % 3], raw={"AccessType": form}, sp=n % 7)
+                pdo = [None, 0, 1][n % 3]
+                raw = {"AccessType": form, "DataType": dt_forms(dt)[n % 8]}
+                if pdo is not None:
+                    raw["PDOMapping"] = FLAG_FORMS[pdo][(n // 3) % len(FLAG_FORMS[pdo])]
+                v = _var(dt, access=acc, pdo=pdo, raw=raw, sp=n % 7)
                 kind = "domain" if dt == rc.DOMAIN and n % 2 else "var"
                 yield _case(_model([_top(0x1000 + n, f"t {n}", v, kind)]), "enum/types")
     # $NODEID forms x node ids, node id explicit / from the file / both / absent
@@ -463,12 +492,12 @@ def enum_cases(tier):
                 else:
                     yield _case(_model(objs), "enum/relative")
     # compact arrays of every size, with and without a name list
-    for dt in (rc.UNSIGNED32, rc.INTEGER24, rc.REAL32, rc.VISIBLE_STRING):
+    for di, dt in enumerate((rc.UNSIGNED32, rc.INTEGER24, rc.REAL32, rc.VISIBLE_STRING)):
         for size in list(range(1, 21)) + [127, 254]:
             for named in (False, True):
                 if named and size > 20:
                     continue
-                v = _var(dt, sub=1, access="ro", pdo=0,
+                v = _var(dt, sub=1, access="ro", pdo=[1, 0, None][(size + di) % 3],
                          default={"k": "int", "v": size} if dt in rc.INTEGERS else None)
                 o = {"kind": "compact", "index": 0x3000 + size, "name": f"arr {size}", "sp": size,
                      "storage": None, "var": v, "n": size,
@@ -484,11 +513,240 @@ def enum_cases(tier):
             yield _case(_model([o]), "enum/subindex")
 
 
+# ---- spellings of flags / data types, wide indices, long comments, near-miss names ---------------
+# 0/1 keys (PDOMapping, BaudRate_x, the booleans of [DeviceInfo]) in "decimal and hex number spellings"
+# (canopen's own exporter writes PDOMapping=0x1; no leading-zero decimals: "01" is not a number spelling
+# the quantifier names)
+FLAG_FORMS = {0: ["0", "0x0", "0X0", "0x00", "0x0000"], 1: ["1", "0x1", "0X1", "0x01", "0x0001"]}
+
+
+def dt_forms(dt):
+    return ["0x%04X" % dt, str(dt), "0x%X" % dt, "0X%X" % dt, "0x%04x" % dt, "0X%04X" % dt, "0x%x" % dt,
+            "0X%04x" % dt]
+
+
+def _seed_with(tag, k, want):
+    """Smallest spelling seed >= 1 whose first pick(k) under `tag` is `want`."""
+    seed = 1
+    while em.Sp(seed, tag).pick(k) != want:
+        seed += 1
+    return seed
+
+
+def respell(model, seed):
+    """Respell (in place) DataType, PDOMapping and the 0/1 keys of [DeviceInfo] with choices derived from
+    `seed` (0 = leave the writer's canonical spelling)."""
+    if not seed:
+        return model
+    sp = em.Sp(seed, "respell")
+    for _o, v in em.all_vars(model):
+        raw = dict(v.get("raw") or {})
+        if v["pdo"] is not None and sp.pick(2):
+            forms = FLAG_FORMS[v["pdo"]]
+            raw["PDOMapping"] = forms[sp.pick(len(forms))]
+        if sp.pick(2):
+            raw["DataType"] = dt_forms(v["dt"])[sp.pick(8)]
+        if raw:
+            v["raw"] = raw
+    if model["devinfo"] is not None:
+        over = {}
+        for key in em.DEVINFO_BOOL:
+            if key in model["devinfo"] and sp.pick(2):
+                forms = FLAG_FORMS[int(model["devinfo"][key])]
+                over[key] = forms[sp.pick(len(forms))]
+        for kb in em.STD_BAUD:
+            if sp.pick(2):
+                forms = FLAG_FORMS[1 if kb in model["baud"] else 0]
+                over["BaudRate_%d" % kb] = forms[sp.pick(len(forms))]
+        if over:
+            model["raw"] = {"DeviceInfo": over}
+    return model
+
+
+def name_variant(name, how):
+    """A different name that differs from `name` in letter case only or in one character."""
+    if how == 0:
+        r = name.swapcase()
+    elif how == 1:
+        r = name.upper()
+    elif how == 2:
+        r = name.lower()
+    elif how == 3:
+        r = name[:1].swapcase() + name[1:]
+    elif how == 4:
+        r = name[:-1] + ("x" if name[-1:] != "x" else "y")
+    else:
+        r = name + "x"
+    if r.startswith("Dummy"):
+        r = "d" + r
+    return r                              # may equal `name` (no letters): fix_names makes it unique again
+
+
+NEAR_PAIRS = [("Speed", "speed"), ("Speed", "SPEED"), ("speed", "sPEED"), ("x", "X"), ("Speed", "Speed1"),
+              ("Speed", "Spee"), ("Speed", "Sqeed"), ("Speed", "Speeds"), ("a b", "A b"), ("a b", "a  b"),
+              ("Value_1", "Value_l"), ("T(1)", "t(1)")]
+
+
+def _rec(index, name, members, kind="record", sp=0):
+    return {"kind": kind, "index": index, "name": name, "sp": sp, "storage": None, "members": members}
+
+
+def near_name_models():
+    """Dictionaries whose lookup keys differ in letter case only or in one character, at every level a
+    name is a key: dictionary, record, array, compact name list, 'Parent.Child'."""
+    def n0():
+        return _var(rc.UNSIGNED8, sub=0, name="n", access="ro")
+    for a, b in NEAR_PAIRS + [(b, a) for a, b in NEAR_PAIRS]:
+        yield [_top(0x2000, a, _var(rc.UNSIGNED16)), _top(0x2001, b, _var(rc.INTEGER16))]
+        yield [_rec(0x2000, a, [n0(), _var(rc.UNSIGNED16, sub=1, name="m")]),
+               _rec(0x2001, b, [n0(), _var(rc.INTEGER16, sub=1, name="m")], kind="array")]
+        yield [_rec(0x2000, "rec", [n0(), _var(rc.UNSIGNED16, sub=1, name=a), _var(rc.INTEGER16, sub=2, name=b)])]
+        yield [_rec(0x2000, "arr", [n0(), _var(rc.UNSIGNED16, sub=1, name=a), _var(rc.UNSIGNED16, sub=2, name=b)],
+                    kind="array")]
+        yield [{"kind": "compact", "index": 0x2000, "name": "cmp", "sp": 0, "storage": None,
+                "var": _var(rc.UNSIGNED16, sub=1, pdo=1), "n": 2, "names": [a, b], "n_hex": False}]
+        yield [_top(0x2000, a + ".m", _var(rc.UNSIGNED16)),
+               _rec(0x2001, b, [n0(), _var(rc.INTEGER16, sub=1, name="m")])]
+        yield [_rec(0x2000, a, [n0(), _var(rc.UNSIGNED16, sub=1, name=b)]), _top(0x2001, b, _var(rc.INTEGER16))]
+
+
+WIDE_INDICES = [0xA000, 0xA001, 0xA0FF, 0xA100, 0xA47F, 0xAFFF, 0xB000, 0xBEEF, 0xBFFF, 0xC000, 0xC0DE,
+                0xD00D, 0xDFFF, 0xE000, 0xEEEE, 0xF000, 0xFACE, 0xFFFE, 0xFFFF, 0xABCD, 0xFEDC, 0xAAAA]
+
+
+def index_objects(index, sp):
+    """One object of every kind at `index` (section headers <index>, <index>subN, <index>Name)."""
+    def n0():
+        return _var(rc.UNSIGNED8, sub=0, name="n", access="ro")
+    yield _top(index, "v", _var(rc.UNSIGNED32, default={"k": "int", "v": index}), sp=sp)
+    yield _top(index, "d", _var(rc.DOMAIN), kind="domain", sp=sp)
+    yield _rec(index, "r", [n0(), _var(rc.INTEGER16, sub=1, name="m1", sp=sp),
+                            _var(rc.INTEGER24, sub=0xA, name="ma", sp=sp + 1)], sp=sp)
+    yield _rec(index, "a", [n0(), _var(rc.UNSIGNED16, sub=1, name="e1", sp=sp),
+                            _var(rc.UNSIGNED16, sub=2, name="e2", sp=sp + 1)], kind="array", sp=sp)
+    for names in (None, ["e1", "e2", "e3"]):
+        yield {"kind": "compact", "index": index, "name": "c", "sp": sp, "storage": None,
+               "var": _var(rc.UNSIGNED16, sub=1, pdo=1, default={"k": "int", "v": 7}), "n": 3, "names": names,
+               "n_hex": False}
+
+
+def comment_lines(n, base="line", empty_mask=0):
+    """n distinct comment lines (so every permutation is visible), some of them empty."""
+    return ["" if k % 3 == 0 and (empty_mask >> (k % 16)) & 1 else "%s %d" % (base, k) for k in range(1, n + 1)]
+
+
+def enum_wide(tier):
+    thorough = tier == "thorough"
+    # 0/1 keys in every number spelling: BaudRate_x, [DeviceInfo] booleans, PDOMapping at every place
+    for fi in range(len(FLAG_FORMS[0])):
+        f0, f1 = FLAG_FORMS[0][fi], FLAG_FORMS[1][fi]
+        for kb in em.STD_BAUD:
+            over = {"BaudRate_%d" % x: (f1 if x == kb else f0) for x in em.STD_BAUD}
+            yield _case(_model([_top(0x2000, "v", _var(rc.UNSIGNED8))], devinfo={}, baud=[kb],
+                               raw={"DeviceInfo": over}), "enum/flags")
+        for key in em.DEVINFO_BOOL:
+            for val in (0, 1):
+                yield _case(_model([_top(0x2000, "v", _var(rc.UNSIGNED8))], devinfo={key: val},
+                                   baud=[], raw={"DeviceInfo": {key: (f1 if val else f0)}}), "enum/flags")
+        for val in (0, 1):
+            raw = {"PDOMapping": f1 if val else f0}
+            yield _case(_model([_top(0x2000, "v", _var(rc.UNSIGNED16, pdo=val, raw=raw))]), "enum/flags")
+            yield _case(_model([_rec(0x2000, "r", [_var(rc.UNSIGNED8, sub=0, name="n", pdo=1 - val,
+                                                        raw={"PDOMapping": f0 if val else f1}),
+                                                   _var(rc.INTEGER16, sub=1, name="m", pdo=val, raw=raw)])]),
+                        "enum/flags")
+            for names in (None, ["e1", "e2", "e3"]):
+                o = {"kind": "compact", "index": 0x2000, "name": "c", "sp": 0, "storage": None,
+                     "var": _var(rc.UNSIGNED16, sub=1, pdo=val, raw=raw), "n": 3, "names": names,
+                     "n_hex": False}
+                yield _case(_model([o]), "enum/flags")
+    # comment blocks of every length around the one-digit / two-digit / three-digit line numbers
+    lengths = list(range(0, 121)) if thorough else list(range(0, 31)) + [99, 100, 101]
+    for n in lengths:
+        lf = em.uint_forms(n, 2)[n % 5]
+        yield _case(_model([_top(0x2000, "v", _var(rc.UNSIGNED8))], comments=comment_lines(n, "l", n * 37),
+                           raw={"Comments": {"Lines": lf}}, sp=n % 4), "enum/comments")
+    # indices with hex letters in the section header (0xA000..0xFFFF), every kind, both digit cases
+    up, low = _seed_with("obj", 2, 0), _seed_with("obj", 2, 1)
+    indices = WIDE_INDICES + ([i for i in range(0xA000, 0x10000, 0x111)] if thorough else [])
+    for n, index in enumerate(indices):
+        for o in index_objects(index, (up, low)[n % 2]):
+            yield _case(_model([o, _top(0x1000 + n, "other", _var(rc.UNSIGNED32))]), "enum/index")
+        if thorough:
+            for o in index_objects(index, (low, up)[n % 2]):
+                yield _case(_model([_top(0x1000 + n, "other", _var(rc.UNSIGNED32)), o]), "enum/index")
+    # names that differ in letter case only / in one character
+    for objs in near_name_models():
+        yield _case(_model(objs), "enum/names")
+        if thorough:
+            yield _case(_model(list(reversed(objs)), doc="dcf"), "enum/names")
+
+
+_XINDEX = st.one_of(st.none(), st.none(), st.sampled_from(WIDE_INDICES), st.integers(0xA000, 0xFFFF))
+_NLONG = st.one_of(st.sampled_from([9, 10, 11, 12, 19, 20, 21, 25, 99, 100, 101]), st.integers(5, 40))
+_HOW = st.integers(0, 5)
+_WIDE = st.integers(0, 0xFFFF)
+_MASK = st.integers(0, 0xFFFF)
+_SPELL = st.integers(0, 1 << 32)
+_PICK = st.integers(0, 1 << 16)
+
+
+def _near_names(draw, objs):
+    """Make one lookup key a near miss (letter case / one character) of another key of the same table."""
+    scopes = []
+    if len(objs) >= 2:
+        scopes.append(("top", objs))
+    for o in objs:
+        if o["kind"] in ("record", "array") and len(o["members"]) >= 2:
+            scopes.append(("members", o["members"]))
+        elif o["kind"] == "compact" and o["names"] is not None and o["n"] >= 2:
+            scopes.append(("names", o))
+        if o["kind"] in ("record", "array"):
+            scopes.append(("child-of", o))
+    if not scopes:
+        return
+    kind, what = scopes[draw(_PICK) % len(scopes)]
+    how = draw(_HOW)
+    if kind == "child-of":
+        m = what["members"][draw(_PICK) % len(what["members"])]
+        m["name"] = name_variant(what["name"], how)
+    elif kind == "names":
+        i = draw(_PICK) % what["n"]
+        j = (i + 1 + draw(_PICK) % (what["n"] - 1)) % what["n"]
+        what["names"][j] = name_variant(what["names"][i], how)
+    else:
+        i = draw(_PICK) % len(what)
+        j = (i + 1 + draw(_PICK) % (len(what) - 1)) % len(what)
+        what[j]["name"] = name_variant(what[i]["name"], how)
+    em.fix_names(objs)
+
+
 @st.composite
 def cases(draw):
     model = draw(em.models(quirks=True))
     flags = draw(st.integers(0, 0xFFF))
     node_arg = draw(st.one_of(st.none(), st.integers(1, 127)))
+    # widenings on top of the shared model strategy (each at a moderate rate, all Hypothesis draws)
+    wide = draw(_WIDE)
+    objs = model["objects"]
+    if wide & 0x3 == 0x3:                            # indices 0xA000..0xFFFF
+        used = {o["index"] for o in objs}
+        for o in objs:
+            i = draw(_XINDEX)
+            if i is not None and i not in used:
+                used.discard(o["index"])
+                used.add(i)
+                o["index"] = i
+    if wide & 0xC == 0xC:                            # comment blocks with two- and three-digit line numbers
+        model["comments"] = comment_lines(draw(_NLONG), draw(em.FREE_TEXT), draw(_MASK))
+    if wide & 0x30 == 0x30:                          # near-miss names
+        _near_names(draw, objs)
+    if wide & 0x40:                                  # PDOMapping=1 on compact arrays without a name list
+        for o in objs:
+            if o["kind"] == "compact" and o["names"] is None and o["var"]["pdo"] == 0 and draw(_BOOL):
+                o["var"]["pdo"] = 1
+    if wide & 0x80:                                  # flags / data types in every number spelling
+        respell(model, draw(_SPELL))
     return {"model": model, "node_arg": node_arg,
             "source": ["stream", "path", "file", "stream"][flags & 3],
             "suffix": [0, 0, 1, 2][(flags >> 2) & 3],
@@ -540,8 +798,13 @@ def hyp_chunks(ctx, strategy, total, chunk):
 def search(ctx):
     ctx.enumerate(enum_cases(ctx.tier),
                   "boundary values x spellings of every integer type (defaults, parameter values, limits); "
-                  "23 types x 6 access types x 4 case forms; node ids 1..127 x 5 $NODEID forms; compact "
-                  "sizes 1..20,127,254; sub-indices 1..0xFE")
+                  "25 types x 6 access types x 4 case forms x 8 DataType spellings; node ids 1..127 x 5 $NODEID "
+                  "forms; compact sizes 1..20,127,254 x PDOMapping absent/0/1; sub-indices 1..0xFE")
+    ctx.enumerate(enum_wide(ctx.tier),
+                  "0/1 keys (BaudRate_x, DeviceInfo booleans, PDOMapping of VAR / member / compact element) x 5 "
+                  "number spellings; comment blocks of 0..30, 99..101 lines (thorough 0..120); indices "
+                  "0xA000..0xFFFF x every kind x both hex digit cases; near-miss names (letter case / one "
+                  "character) at every level a name is a lookup key")
     total, chunk = (20000, 500) if ctx.tier == "thorough" else (1800, 300)
     hyp_chunks(ctx, cases(), total, chunk)
     if _feature_counts and ctx.shard == 0:
